@@ -113,6 +113,10 @@ def exec_case(case):
     os.makedirs(sibling)
     elsewhere = os.path.join(base, "elsewhere")
     os.makedirs(elsewhere)
+    # the directories a command may be started from carry ignore files of their own: they describe THOSE directories, not the linted project
+    for d in (elsewhere, sibling):
+        with open(os.path.join(d, ".thailintignore"), "w", encoding="utf-8") as fh:
+            fh.write("*.py\n*.ts\n*.rs\nsrc/\npkg/\n")
     runner.write_tree(root, case["files"])
     # a source file that is a symlink to a file OUTSIDE the project root (shared between checkouts): still a file of the project, under its project path
     shared = os.path.join(parent, "shared_out")
